@@ -12,6 +12,7 @@ from concurrent.futures import ThreadPoolExecutor
 
 import gen_sem
 import vlib
+import scope_corr
 from vlib import hexs
 
 NEED_BIN = True
@@ -22,7 +23,9 @@ MANIFEST_ENTRY = {
     "text": "Theorems for every file set / declaration list: a file with a lexical or syntax error makes the semantic check of the "
             "whole set fail (and `check` exit non-zero without OK) whatever the other files contain; the declaration sort returns a "
             "permutation of the declarations it was given, and fails with P0020 when two types or two POUs share a name (never "
-            "collapses them); a declaration that fails a rule against the name table keeps the verdict false wherever it stands. "
+            "collapses them); a declaration that fails a rule against the name table keeps the verdict false wherever it stands; a "
+            "unit that uses an undeclared variable fails the declared-variable rule in any company and at any position (the scope-"
+            "stack model: no companion hides it, none declaring the name elsewhere cures it). "
             "That each implemented rule has the table shape is tied by search: each fault kind is placed at every position among "
             "valid companions, in every file order, with and without companions reusing its name.",
     "note": "Trusted: Coq kernel, extraction + driver, harness ops project / analyze, the ironplcc binary runner. The rule visitors "
@@ -152,6 +155,9 @@ def search(run, info):
             kinds.append(("T" if d.kind == "type" else "P", nm.lower()))
             dup_meta.append((len(cases) - 1, kinds))
     res = vlib.run_impl(cases, wd, per_case_timeout=30)
+    # the scope walk of the declared-variable rule against its Coq model, on a sample of the file sets
+    step = max(1, len(cases) // (400 if run.tier == "quick" else 4000))
+    sc_n, sc_bad = scope_corr.check(run, [[(f[0], bytes.fromhex(f[1]).decode("utf-8")) for f in c["files"]] for c in cases[::step]], info, "c03")
     tab = {}
     for i, ((code, what, fl, layout), r) in enumerate(zip(meta, res)):
         run.count((code, tuple(fl)), True, "%s:%s" % (code, layout))
